@@ -73,7 +73,7 @@ pub fn enum_iter(p: &EnumParams, out: &mut RunOut) -> u64 {
                 let mut ops = build_ops(&mut rng, n);
                 let consuming = kind >= IT_INTO_ITER;
                 if consuming { ops.push(Op::CloneCache); } // keeps a sibling alive so that the engine can consume the addressed cache mid-history
-                let fin = if p.forget { [0u8, 0, 3, 4, 5][(case % 5) as usize] } else { [0u8, 0, 0, 0, 1, 2, 3, 4, 5, 6, 7, 8, 8][(case % 13) as usize] };
+                let fin = if p.forget { [0u8, 0, 3, 4, 5][(crate::rng::mix(&[case, 6]) % 5) as usize] } else { [0u8, 0, 0, 0, 1, 2, 3, 4, 5, 6, 7, 8, 8, 9, 10, 11, 12, 13, 14, 15][(crate::rng::mix(&[case, 5]) % 20) as usize] };
                 if consuming { ops.push(Op::Into { kind, calls: calls.clone(), forget: p.forget, fin }); } else { ops.push(Op::Iterate { kind, calls: calls.clone(), forget: p.forget, fin }); }
                 ops.extend(follow_up(&mut rng, n));
                 if p.markers { println!("CASE iter kind={} n={} calls={} forget={} cfg=[{}]", IT_NAMES[kind as usize], n, calls.iter().map(|b| if *b { 'B' } else { 'F' }).collect::<String>(), p.forget, cfg.to_text()); }
@@ -100,7 +100,7 @@ pub fn random_iter(p: &EnumParams, cases: u64, max_len: usize, out: &mut RunOut)
         let calls: Vec<bool> = (0..len).map(|i| match style { 0 => false, 1 => true, 2 => i % 2 == 0, _ => rng.chance(1, 2) }).collect();
         let cfg = cfg_for(&mut rng, n);
         let mut ops = build_ops(&mut rng, n);
-        let fin = if p.forget { 0 } else { rng.below(9) as u8 };
+        let fin = if p.forget { 0 } else { rng.below(N_FIN) as u8 };
         if kind >= IT_INTO_ITER { ops.push(Op::CloneCache); ops.push(Op::Into { kind, calls, forget: p.forget, fin }); } else { ops.push(Op::Iterate { kind, calls, forget: p.forget, fin }); }
         ops.extend(follow_up(&mut rng, n));
         run_history(&cfg, Source::Fixed(&ops), out, &opts);
